@@ -207,10 +207,13 @@ def stats_of_stored(ctx, ncls=3, nel=2, rdf=0):
     m.pData.drivingForce = ctx.reals("dG", (1, 1), (0.0, 1.0)); ctx.assume(m.pData.drivingForce[0, 0] >= 0)
     m.RdrivingForceIndex = np.array([rdf], dtype=np.int32)
     m.constraints.minRadius = ctx.real("minRadius", (0.0, 4.0)); ctx.assume(m.constraints.minRadius >= 0)
-    x = [ctx.reals("x0", ncls, (0.0, 4.0))]
+    # populations are 0 or > 1 per class (the documented one-particle truncation is not the subject here); nothing in the last class: the grid is not extended
+    y = ctx.reals("y0", ncls, (0.0, 3.0)); filled = [ctx.boolean("filled%d" % i) for i in range(ncls)]
+    x0 = np.empty(ncls, dtype=object)
     for i in range(ncls):
-        ctx.assume(ctx.any([ctx.eq(x[0][i], 0.0), x[0][i] > 1]))       # the documented one-particle truncation is not the subject here
-    ctx.assume(ctx.eq(x[0][ncls - 1], 0.0))                           # nothing in the last class: the grid is not extended
+        ctx.assume(y[i] > 0)
+        x0[i] = (y[i] + 1.0) if (i < ncls - 1 and bool(filled[i])) else 0.0 * y[i]
+    x = [x0 if ctx.mode != "concrete" else x0.astype(float)]
     t = ctx.real("t", (0.1, 1.0))
     m._processX(x)
     Y = m._calcMassBalance(t, x, m.pData.copySlice(0))
